@@ -119,6 +119,8 @@ def r1_transfer_loops(repo=None):
         if dedupe is not None:
             extra = [x for x in extra if x is not dedupe.body[0]]
         cond = [a_ for a_ in _anc(fv, tc) if isinstance(a_, (ast.If, ast.Try, ast.While)) and any(a_ is x for x in ast.walk(inner))]
+        if dedupe is not None and getattr(dedupe, "_positive", False):
+            cond = [a_ for a_ in cond if a_ is not dedupe]
         src_iter = outer is not None and norm(ast.unparse(pyutil.dealias(outer.iter, env))) == "args.srcdests"
         srcname = norm(ast.unparse(inner.iter.args[0])) if inner.iter.args else None
         pair_ok = outer is not None and isinstance(outer.target, ast.Tuple) and len(outer.target.elts) == 2 \
@@ -184,6 +186,27 @@ def _find_dedupe(f, outer, inner, tc, env):
                           and not any(y is z for z in ast.walk(st_)) and not (nxt is not None and any(y is z for z in ast.walk(nxt)))]
             if empty and adds and not other_uses:
                 dedupe = st_
+        # the same skip in its positive form: `if D not in seen: seen.add(D); <transfer>` - everything the loop does for a file is
+        # inside the `if`, whose only other content is the transfer
+        elif isinstance(st_, ast.If) and not st_.orelse and isinstance(st_.test, ast.Compare) and len(st_.test.ops) == 1 \
+                and isinstance(st_.test.ops[0], ast.NotIn) and isinstance(st_.test.comparators[0], ast.Name) \
+                and norm(ast.unparse(pyutil.dealias(st_.test.left, env))) == dpath and any(tc is y for y in ast.walk(st_)):
+            S = st_.test.comparators[0].id
+            inits = [a_ for a_ in ast.walk(f) if isinstance(a_, ast.Assign) and any(isinstance(t_, ast.Name) and t_.id == S for t_ in a_.targets)]
+            empty = len(inits) == 1 and ((isinstance(inits[0].value, ast.Call) and pyfront.call_name(inits[0].value) in ("set", "list") and not inits[0].value.args)
+                                         or (isinstance(inits[0].value, (ast.List, ast.Set)) and not inits[0].value.elts)) \
+                and not any(inits[0] is y for y in ast.walk(outer))
+            first = st_.body[0] if st_.body else None
+            adds = isinstance(first, ast.Expr) and isinstance(first.value, ast.Call) and isinstance(first.value.func, ast.Attribute) \
+                and first.value.func.attr in ("add", "append") and isinstance(first.value.func.value, ast.Name) and first.value.func.value.id == S \
+                and len(first.value.args) == 1 and norm(ast.unparse(pyutil.dealias(first.value.args[0], env))) == dpath
+            other_uses = [y for y in ast.walk(f) if isinstance(y, ast.Name) and y.id == S and isinstance(y.ctx, ast.Load)
+                          and not any(y is z for z in ast.walk(st_.test)) and not (first is not None and any(y is z for z in ast.walk(first)))]
+            # nothing of the iteration may lie after the `if` (it would run for a skipped file as well)
+            last = st_i == len(inner.body) - 1
+            if empty and adds and not other_uses and last:
+                dedupe = st_
+                dedupe._positive = True
     return dedupe
 
 
@@ -573,7 +596,14 @@ def r3_wiring(repo=None):
             r.violation(dm.rel, "main", "command %s -> %s" % (cmd, reg.get(cmd)), "command registered with the wrong parser builder", line=main.lineno)
             continue
         bf = m.fn(b)
-        sd = [c for c in ast.walk(bf) if isinstance(c, ast.Call) and isinstance(c.func, ast.Attribute) and c.func.attr == "set_defaults"]
+        try:
+            bview = m.flat(b).dealiased().fn()          # a shared builder helper that receives the run function is written out
+        except AnalysisError:
+            bview = bf
+        sd = [c for c in ast.walk(bview) if isinstance(c, ast.Call) and isinstance(c.func, ast.Attribute) and c.func.attr == "set_defaults"
+              and pyfront.kwarg(c, "func") is not None]
+        if not sd:
+            raise AnalysisError("%s: set_defaults(func=...) not found (directly or in an inlined helper)" % b)
         got = norm(ast.unparse(pyfront.kwarg(sd[0], "func"))) if sd else None
         if got == run:
             r.ok("%s %s -> %s -> %s" % (dm.rel, cmd, b, run), "registered and dispatched to the matching run function")
@@ -930,8 +960,42 @@ def r5_listing_root_spelled_like_the_source(repo=None):
     return r
 
 
+def r6_same_window_as_the_listing(repo=None):
+    """'transfer exactly the listed set': `drf ls` and `drf cp / ln / mv` given the same -s / -e options must hand the same window
+    to ilsdrf.  Both parse the two option values themselves; sibling agreement: the stores to args.starttime / args.endtime in
+    _run_ls and in the commands' shared preparation (private helpers inlined) are the same statements in the same order."""
+    r = Rule("C18.R6", "ls and cp / ln / mv derive the time window from -s / -e by the same statements (sibling)")
+    m = pyfront.mod("list_drf", repo)
+    pq = prepare_fn(m)
+
+    def window_stores(q):
+        f = m.flat(q).fn()
+        out = []
+        for n in ast.walk(f):
+            if isinstance(n, (ast.Assign, ast.AugAssign)):
+                tg = n.targets if isinstance(n, ast.Assign) else [n.target]
+                for t in tg:
+                    if pyfront.dotted(t) in ("args.starttime", "args.endtime"):
+                        out.append((n.lineno, pyfront.dotted(t), norm(ast.unparse(n.value)), n))
+        return sorted(out, key=lambda x: x[0])
+    a, b = window_stores("_run_ls"), window_stores(pq)
+    if not a or not b:
+        raise AnalysisError("list_drf: stores of args.starttime / args.endtime not found in _run_ls (%d) / %s (%d)" % (len(a), pq, len(b)))
+    ta, tb = [(x[1], x[2]) for x in a], [(x[1], x[2]) for x in b]
+    if ta == tb:
+        r.ok("%s:%s/%s _run_ls / %s" % (m.rel, a[0][0], b[0][0], pq), "%d stores each, identical: %s" % (len(ta), "; ".join("%s = %s" % (t, v[:40]) for t, v in ta)))
+    else:
+        extra = [x for x in b if (x[1], x[2]) not in ta] or [x for x in a if (x[1], x[2]) not in tb]
+        x = extra[0] if extra else b[0]
+        r.violation(m.rel, pq if x in b else "_run_ls", "%s = %s" % (x[1], x[2][:60]), "the transfer commands and the listing command compute the window "
+                    "differently from the same options: cp / ln / mv select other files than `drf ls` with the same -s / -e shows "
+                    "(and mv removes them from the source)", line=x[0])
+    r.guard(1)
+    return r
+
+
 def rules(repo=None):
-    return [lambda: r5_listing_root_spelled_like_the_source(repo), lambda: r1_transfer_loops(repo), lambda: r2_option_table(repo), lambda: r3_wiring(repo), lambda: r4_channel_pairs(repo)]
+    return [lambda: r6_same_window_as_the_listing(repo), lambda: r5_listing_root_spelled_like_the_source(repo), lambda: r1_transfer_loops(repo), lambda: r2_option_table(repo), lambda: r3_wiring(repo), lambda: r4_channel_pairs(repo)]
 
 
 EXPLANATION = (
@@ -952,7 +1016,9 @@ EXPLANATION = (
     'continue; seen.add(D)`, the only conditional skip R1 accepts). Does NOT decide byte identity (library code). R1 '
     'also: a run function with two loops over ilsdrf that both change the file system acts on two selections (violation).'
     ' R5: ilsdrf normalises its root argument with the same function (os.path.abspath) that the transfer commands apply '
-    'to args.src and the mirror to its source: relpath(listed path, source) stays below the source.')
+    'to args.src and the mirror to its source: relpath(listed path, source) stays below the source. R6: the stores to '
+    'args.starttime / args.endtime in _run_ls and in the shared preparation of cp / ln / mv (helpers inlined) are the '
+    'same statements in the same order.')
 TECHNIQUE = (
     'Python ast; alpha-equivalence of sibling commands; loop-carried dependence of the destination; option-table vs '
     'signature agreement; registry/table checks')
